@@ -10,6 +10,7 @@
 (*             (conformance; not a verdict)                                                      *)
 (* Every line is consumed.                                                                       *)
 EXTENDS DispatchOps, Json
+CONSTANTS CodeDefects   \* the defect branches the code under test still has (conformance transcription only)
 Trace == ndJsonDeserialize("trace.ndjson")
 VARIABLES l, tapi, tregs, tsnd, trcv,
           tc      \* per build: what the contract expects for every kind (computed once at the Build line)
@@ -77,16 +78,16 @@ JudgeSend(e) ==
 
 (* --- conformance with the transcription of the code (drift only) -------------------------------- *)
 ConfBuild(e) ==
-  /\ IF Ent(e.snd) \in EntriesSet(tapi, tregs, AllDefects) THEN TRUE ELSE Say("DRIFT", "snd-entries", "", "", "")
-  /\ IF Ent(e.rcv) \in EntriesSet(tapi, tregs, AllDefects) THEN TRUE ELSE Say("DRIFT", "rcv-entries", "", "", "")
+  /\ IF Ent(e.snd) \in EntriesSet(tapi, tregs, CodeDefects) THEN TRUE ELSE Say("DRIFT", "snd-entries", "", "", "")
+  /\ IF Ent(e.rcv) \in EntriesSet(tapi, tregs, CodeDefects) THEN TRUE ELSE Say("DRIFT", "rcv-entries", "", "", "")
 ConfSend(e) ==
   LET got == IF e.sndPanic THEN "panic" ELSE e.snd
       g == tc.g
   IN
-  /\ IF got = Resolve(tsnd, e.kind, AllDefects) THEN TRUE ELSE Say("DRIFT", "resolve", e.kind, Resolve(tsnd, e.kind, AllDefects), got)
+  /\ IF got = Resolve(tsnd, e.kind, CodeDefects) THEN TRUE ELSE Say("DRIFT", "resolve", e.kind, Resolve(tsnd, e.kind, CodeDefects), got)
   /\ IF ~e.enc \/ e.rcvPanic \/ (e.kind \in {"mEvt1", "mEvt2"} /\ ~e.dec) THEN TRUE   \* colliding names: decode may also fail
-     ELSE IF e.rcv = Decode(trcv, Frame(got, e.kind), g, AllDefects) THEN TRUE
-     ELSE Say("DRIFT", "decode", e.kind, Decode(trcv, Frame(got, e.kind), g, AllDefects), e.rcv)
+     ELSE IF e.rcv = Decode(trcv, Frame(got, e.kind), g, CodeDefects) THEN TRUE
+     ELSE Say("DRIFT", "decode", e.kind, Decode(trcv, Frame(got, e.kind), g, CodeDefects), e.rcv)
 
 Step ==
   /\ l <= Len(Trace)
